@@ -9,7 +9,7 @@ from .. import core, family, parity
 LEVEL = "exploration"
 JOINTS = ("weld", "free", "ball", "hinge", "slide", "hinge2", "slidehinge", "ballslide")
 GEOMS = ("sphere", "capsule", "box", "ellipsoid", "cylinder")
-FEATS = ("sens_pos", "sens_vel", "sens_acc", "sens_site", "site", "camlight", "cutoff", "energy", "tendon_fixed", "tendon_spatial", "act_motor",
+FEATS = ("tlimit", "sens_pos", "sens_vel", "sens_acc", "sens_site", "site", "camlight", "cutoff", "energy", "tendon_fixed", "tendon_spatial", "act_motor",
          "act_position", "act_filter", "act_tendon", "spring", "gravcomp", "applied", "jlimit", "eq_connect", "damper")
 
 
@@ -20,6 +20,20 @@ def compare(rec, b, mjm, mjd, m, d, cmp, opts):
 
   if mjm.nsensor == 0 and not (mjm.opt.enableflags & mujoco.mjtEnableBit.mjENBL_ENERGY):
     return "skip:no_sensor"
+  for rnd in range(2):
+    if rnd == 1:
+      # a second evaluation on the SAME Data at a different state: outputs must not carry anything over from the first one
+      # (sensors that only write their slot while something is active, e.g. limit sensors, rely on the buffer being reset)
+      st2 = family.make_state({"c": dict(rec["c"] if "c" in rec else rec, salt=1)}, mjm, opts.get("seed", 0))
+      family.apply_state(mjm, mjd, m, d, st2)
+    _compare_once(mjm, mjd, m, d, cmp)
+
+
+def _compare_once(mjm, mjd, m, d, cmp):
+  import mujoco
+
+  import mujoco_warp as mjw
+
   mujoco.mj_forward(mjm, mjd)
   mjw.forward(m, d)
   sd = d.sensordata.numpy()
@@ -39,7 +53,12 @@ def compare(rec, b, mjm, mjd, m, d, cmp, opts):
         if body >= 0 and mjm.body_treeid[body] < 0:
           name += "@static_body"
       acc = mjm.sensor_needstage[s] == mujoco.mjtStage.mjSTAGE_ACC
-      cmp.close(name, sd[w, a : a + n], mjd.sensordata[a : a + n], stage_tol, scale=fscale if acc else None)
+      ref = mjd.sensordata[a : a + n]
+      if st == "mjSENS_E_KINETIC":
+        # mj_forward evaluates the e_kinetic SENSOR before it recomputes the kinetic energy (it reports the previous call's value on
+        # a re-used MjData); the energy itself is the reference
+        ref = np.array([mjd.energy[1]])
+      cmp.close(name, sd[w, a : a + n], ref, stage_tol, scale=fscale if acc else None)
     cmp.close("energy", d.energy.numpy()[w], mjd.energy, 1e-4)
 
 
